@@ -3,6 +3,16 @@
 // Contracts for package label (comment-only; read by /verif/govc, ignored by the compiler).
 package label
 
+// String is a function of the label's four fields (assumed: callers rely on two calls agreeing).
+//@ specfn lstr4(string, string, string, string) string
+//@ smt <<<
+//@ (declare-fun lstr4 (Str Str Str Str) Str)
+//@ >>>
+//@ func (*label.Label).String variant function-of-fields
+//@   trusted
+//@   requires l != nil
+//@   ensures result == lstr4(l.Kind, l.Project, l.Package, l.Name)
+
 // String only reads the label and builds its result in a local builder.
 //@ func (*label.Label).String
 //@   requires l != nil
